@@ -325,21 +325,18 @@ theorem step_good {p : Params} {dflt : Nat} {st st' : State} {d : Decl} {b : Bin
     · split at h
       · cases h
       · rename_i k'
+        -- `registerType k'`: a non-resource object kind is left alone
         split at h
-        · simp only [Counter.bump, Except.ok.injEq, Prod.mk.injEq, Option.some.injEq] at h
-          obtain ⟨_, rfl⟩ := h
-          have hc : (p.supportBufferAddress && isBufferAddress k' && l.isNone) = true := by assumption
-          simp only [Bool.and_eq_true] at hc
-          exact ⟨rfl, hc.1.1, s, ss, k', l, rfl⟩
+        · simp at h
         · split at h
-          · split at h
-            · simp only [Counter.bump, Except.ok.injEq, Prod.mk.injEq, Option.some.injEq] at h
-              obtain ⟨_, rfl⟩ := h
-              simp_all [GoodFor]
-            · cases h
           · simp only [Counter.bump, Except.ok.injEq, Prod.mk.injEq, Option.some.injEq] at h
             obtain ⟨_, rfl⟩ := h
-            simp_all [GoodFor]
+            have hc : (p.supportBufferAddress && isBufferAddress k' && l.isNone) = true := by assumption
+            simp only [Bool.and_eq_true] at hc
+            exact ⟨rfl, hc.1.1, s, ss, k', l, rfl⟩
+          · simp only [Counter.bump, Except.ok.injEq, Prod.mk.injEq, Option.some.injEq] at h
+            obtain ⟨_, rfl⟩ := h
+            cases hr : p.requireSlotType <;> simp [GoodFor, hr]
 
 def AllGood (p : Params) : List Decl → List (Option Binding) → Prop
   | d :: ds, ob :: bs => (∀ b, ob = some b → GoodFor p d b) ∧ AllGood p ds bs
@@ -595,6 +592,31 @@ theorem sortGroups_id : ∀ (gs : List Group), (∀ g ∈ gs, sortGroup g = .ok 
   | cons g gs ih =>
     intro h
     simp [sortGroups, h g (by simp), ih (fun x hx => h x (by simp [hx]))]
+
+/-- the per-group sort fails only with the panic of its comparator -/
+theorem sortGroups_error : ∀ (gs : List Group) (e : String), sortGroups gs = .error e →
+    e = "panic: inline constant in an argument buffer" := by
+  intro gs
+  induction gs with
+  | nil => intro e h; simp [sortGroups] at h
+  | cons g gs ih =>
+    intro e h
+    unfold sortGroups at h
+    split at h
+    · cases h
+    · rename_i e' hg
+      simp only [Except.error.injEq] at h
+      subst h
+      unfold sortGroup at hg
+      split at hg
+      · split at hg
+        · cases hg
+        · simp only [Except.error.injEq] at hg; exact hg.symm
+      · cases hg
+    · rename_i e' hg' _
+      simp only [Except.error.injEq] at h
+      subst h
+      exact ih _ hg'
 
 theorem all_index {p : Params} {dflt : Nat} (hsba : p.supportBufferAddress = false) :
     ∀ (ds : List Decl) (bs : List (Option Binding)), RsslVerif.Thm.C06.Agrees p dflt ds bs → AllGood p ds bs →
